@@ -356,8 +356,12 @@ func (e *Env) Open() error {
 	if !e.HTTP {
 		return nil
 	}
+	return e.serverFor(d)
+}
+
+func (e *Env) serverFor(d *db.DB) error {
 	e.Mux = http.NewServeMux()
-	_, err = server.New(context.Background(), server.Config{
+	_, err := server.New(context.Background(), server.Config{
 		DB: d, WhoIs: e.whoIs, Mux: e.Mux,
 	})
 	return err
@@ -436,8 +440,10 @@ func (e *Env) whoIs(ctx context.Context, addr string) (*apitype.WhoIsResponse, e
 	if c == nil {
 		return nil, errors.New("sim: unknown peer")
 	}
+	e.opMu.Lock()
 	fault := e.WhoIsFault[addr]
 	delete(e.WhoIsFault, addr)
+	e.opMu.Unlock()
 	switch fault {
 	case WhoError:
 		e.S.Fault("whois-error")
@@ -494,7 +500,11 @@ func (e *Env) transport(c *Caller) func(*http.Request) (*http.Response, error) {
 		method := r.Method
 		path := r.URL.Path
 		hdr := r.Header.Clone()
-		if cor := e.Corrupt; cor != nil {
+		var cor *Corruption
+		if e.curOps == nil {
+			cor = e.Corrupt
+		}
+		if cor != nil {
 			e.Corrupt = nil
 			if cor.Method != "" {
 				method = cor.Method
